@@ -249,4 +249,5 @@ def main():
         raise ValueError(mode)
 
 
-main()
+if __name__ == "__main__":
+    main()
